@@ -641,7 +641,7 @@ func dCase(seed uint64, idx int, maxlen uint32) string {
 
 func main() {
 	if len(os.Args) < 2 {
-		fmt.Fprintln(os.Stderr, "usage: codec gen|case|dec ...")
+		fmt.Fprintln(os.Stderr, "usage: codec gen|case|dec|peer ...")
 		os.Exit(2)
 	}
 	fs := flag.NewFlagSet(os.Args[1], flag.ExitOnError)
@@ -672,6 +672,9 @@ func main() {
 		} else {
 			fmt.Fprintln(w, eCase(*seed, *idx))
 		}
+	case "peer":
+		fs.Parse(os.Args[2:])
+		cmdPeer(*seed, *n)
 	case "dec":
 		if len(os.Args) != 5 {
 			fmt.Fprintln(os.Stderr, "usage: codec dec <kind> <dialect> <hex>")
